@@ -7,7 +7,7 @@ import math
 import re
 import struct
 import z3
-from .core import (Agg, Enum, Cell, Ptr, Dyn, FnItem, FnPtr, StrRef, NullPtr, UNINIT, Unsupported, RustPanic,
+from .core import (CLOSURE_PTR, RUST_CALL, Agg, Enum, Cell, Ptr, Dyn, FnItem, FnPtr, StrRef, NullPtr, UNINIT, Unsupported, RustPanic,
                    PathEnd, is_sym, copy_val, f32_round)
 
 
@@ -79,13 +79,14 @@ class LockObj:
 
 
 class Guard:
-    __slots__ = ('lock', 'mode', 'released', 'panicking_at_lock')
+    __slots__ = ('lock', 'mode', 'released', 'panicking_at_lock', 'meta')
 
-    def __init__(self, lock, mode, panicking):
+    def __init__(self, lock, mode, panicking, meta=None):
         self.lock = lock
         self.mode = mode
         self.released = False
         self.panicking_at_lock = panicking
+        self.meta = meta
 
 
 class AtomicObj:
@@ -160,7 +161,7 @@ class Models:
     def reg(self, *names):
         def deco(f):
             for n in names:
-                self.exact[n] = f
+                self.exact[norm(n)] = f
             return f
         return deco
 
@@ -171,7 +172,7 @@ class Models:
         return deco
 
     def find(self, ext):
-        dn = ext['dname']
+        dn = norm(ext['dname'])
         f = self.exact.get(dn)
         if f is None:
             for pat, g in self.regex:
@@ -195,6 +196,14 @@ class Models:
 
     def thread_local_ref(self, I, item):
         raise Unsupported('ThreadLocalRef')
+
+
+_NORM = re.compile(r'(?<![A-Za-z0-9_:])(core|alloc)::')
+
+
+def norm(n):
+    """std re-exports: core::x / alloc::x and std::x name the same item"""
+    return _NORM.sub('std::', n)
 
 
 def targ(ext, i=0):
@@ -352,7 +361,8 @@ def register_all(M):
             if st['kind'] == 'dyn':
                 return v
             return ArcRef(v.inner, Dyn(st['id']))
-        raise Unsupported('unsize Arc<%s>' % st['str'])
+        m = I.tail_dyn(st, dt)
+        return v if m is None else ArcRef(v.inner, m)
     M.unsizers['std::sync::Arc'] = unsize_arc
 
     # ------------------------------------------------------------------ Box
@@ -360,7 +370,7 @@ def register_all(M):
         """build the nested struct value of Box<T> around ptr"""
         def build(tid, depth=0):
             t = P.tys[tid]
-            if t['kind'] in ('ptr', 'ref'):
+            if t['kind'] in ('ptr', 'ref', 'pat'):
                 return ptr
             if t['kind'] == 'adt' and t['adt'] == 'struct':
                 fs = t['variants'][0]['fields']
@@ -758,7 +768,10 @@ def register_all(M):
             return err(Agg([g]))
         return ok(g)
 
-    def acquire(I, lk, mode, blocking):
+    def acquire(I, lkp, mode, blocking):
+        lk = lkp.c.f[lkp.i]
+        if type(lk) is not LockObj:
+            raise Unsupported('lock operation on %r' % (lk,))
         me = I.thread_id
         I.sched_point(('lock', lk, mode))
         while True:
@@ -777,18 +790,18 @@ def register_all(M):
             lk.readers.append(me)
         else:
             lk.writer = me
-        return Guard(lk, mode, I.panicking)
+        return Guard(lk, mode, I.panicking, lkp.meta)
 
     @reg('std::sync::Mutex::<T>::lock')
     def mutex_lock(I, ext, a):
         lk = deref_to_value(a[0])
-        g = acquire(I, lk, 'write', True)
+        g = acquire(I, a[0], 'write', True)
         return lock_result(I, lk, g)
 
     @reg('std::sync::Mutex::<T>::try_lock')
     def mutex_try_lock(I, ext, a):
         lk = deref_to_value(a[0])
-        g = acquire(I, lk, 'write', False)
+        g = acquire(I, a[0], 'write', False)
         if g is None:
             return err(Enum(1, []))  # TryLockError::WouldBlock
         if lk.poisoned:
@@ -798,17 +811,17 @@ def register_all(M):
     @reg('std::sync::RwLock::<T>::read')
     def rw_read(I, ext, a):
         lk = deref_to_value(a[0])
-        return lock_result(I, lk, acquire(I, lk, 'read', True))
+        return lock_result(I, lk, acquire(I, a[0], 'read', True))
 
     @reg('std::sync::RwLock::<T>::write')
     def rw_write(I, ext, a):
         lk = deref_to_value(a[0])
-        return lock_result(I, lk, acquire(I, lk, 'write', True))
+        return lock_result(I, lk, acquire(I, a[0], 'write', True))
 
     @reg_re(r"^<std::sync::(MutexGuard|RwLockReadGuard|RwLockWriteGuard)<'.*, T> as std::ops::Deref(Mut)?>::deref(_mut)?$")
     def guard_deref(I, ext, a):
         g = deref_to_value(a[0])
-        return Ptr(g.lock, 0)
+        return Ptr(g.lock, 0, g.meta)
 
     def drop_guard(I, ext, a):
         g = deref_to_value(a[0])
@@ -974,3 +987,983 @@ def register_all(M):
         old = p.c.f[p.i]
         p.c.f[p.i] = default_fn(I, targ(ext))()
         return old
+
+
+# =============================================================================== batch 2
+class MapObj:
+    """HashMap / HashSet: insertion-ordered parallel lists; iteration order is chosen by the run"""
+    __slots__ = ('f', 'kc', 'kt', 'vt', 'is_set')
+
+    def __init__(self, kt, vt, is_set=False):
+        self.f = []          # values
+        self.kc = Cell(None)
+        self.kc.f = []       # keys
+        self.kt = kt
+        self.vt = vt
+        self.is_set = is_set
+
+    def __repr__(self):
+        return ('Set%r' % (self.kc.f,)) if self.is_set else ('Map%r' % (list(zip(self.kc.f, self.f)),))
+
+
+class RefCellObj:
+    __slots__ = ('f', 'borrow')
+
+    def __init__(self, v):
+        self.f = [v]
+        self.borrow = 0
+
+
+class BorrowRef:
+    __slots__ = ('cell', 'mut')
+
+    def __init__(self, cell, mut):
+        self.cell = cell
+        self.mut = mut
+
+
+class HasherObj:
+    __slots__ = ('acc',)
+
+    def __init__(self):
+        self.acc = []
+
+
+class LruObj:
+    """lru::LruCache: list of (key, value) from least to most recently used"""
+    __slots__ = ('f', 'kc', 'cap', 'kt', 'vt')
+
+    def __init__(self, cap, kt, vt):
+        self.f = []
+        self.kc = Cell(None)
+        self.kc.f = []
+        self.cap = cap
+        self.kt = kt
+        self.vt = vt
+
+
+class OpaqueObj:
+    __slots__ = ('what', 'data')
+
+    def __init__(self, what, data=None):
+        self.what = what
+        self.data = data
+
+    def __repr__(self):
+        return 'Opaque(%s)' % self.what
+
+
+def register_batch2(M):
+    reg = M.reg
+    reg_re = M.reg_re
+    P = M.p
+
+    def targs(ext):
+        return [a['ty'] for a in ext['args'] if 'ty' in a]
+
+    def name_of(tid):
+        return P.tys[tid].get('name', '')
+
+    def find_inst(name):
+        c = M.__dict__.setdefault('_inst_cache', {})
+        if name in c:
+            return c[name]
+        r = None
+        for iid, fn in P.fns.items():
+            if fn['name'] == name:
+                r = iid
+                break
+        if r is None:
+            for iid, fn in P.exts.items():
+                if fn['name'] == name:
+                    r = iid
+                    break
+        c[name] = r
+        return r
+    M.find_inst = find_inst
+
+    # ------------------------------------------------------------------ equality / hashing of keys
+    def val_eq(I, tid, a, b):
+        t = P.tys[tid]
+        k = t['kind']
+        if k in ('int', 'bool', 'char', 'float'):
+            if is_sym(a) or is_sym(b):
+                return I.ctx.branch(a == b)
+            return a == b
+        if k == 'ref':
+            pt = P.tys[t['pointee']]
+            if pt['kind'] == 'str':
+                return a.s == b.s
+            return val_eq(I, t['pointee'], a.c.f[a.i], b.c.f[b.i])
+        name = t.get('name', '')
+        if name == 'std::string::String':
+            return a.s == b.s
+        if name == 'std::sync::Arc':
+            it = t['targs'][0]
+            if P.tys[it]['kind'] == 'dyn':
+                raise Unsupported('eq on Arc<dyn>')
+            return val_eq(I, it, a.inner.f[0], b.inner.f[0])
+        if k == 'adt' or k == 'tuple':
+            iid = find_inst('<%s as std::cmp::PartialEq>::eq' % t['str'])
+            if iid is not None:
+                return I.call_fn(iid, [Ptr(Cell(a), 0), Ptr(Cell(b), 0)])
+            return struct_eq(I, t, a, b)
+        raise Unsupported('key equality on %s' % t['str'])
+    M.val_eq = val_eq
+
+    def struct_eq(I, t, a, b):
+        if type(a) is Enum:
+            if a.v != b.v:
+                return False
+            fts = [f['ty'] for f in t['variants'][a.v]['fields']]
+        elif t['kind'] == 'tuple':
+            fts = t['fields']
+        else:
+            fts = [f['ty'] for f in t['variants'][0]['fields']]
+        for ft, x, y in zip(fts, a.f, b.f):
+            if not val_eq(I, ft, x, y):
+                return False
+        return True
+
+    def hash_key(I, tid, v):
+        """a python value standing for the hash of v (None = assume consistent with eq)"""
+        t = P.tys[tid]
+        name = t.get('name', '')
+        if name == 'std::sync::Arc':
+            return hash_key(I, t['targs'][0], v.inner.f[0])
+        if t['kind'] == 'adt' and t['krate'] in ('sentinel_core',):
+            iid = find_inst('<%s as std::hash::Hash>::hash::<std::hash::DefaultHasher>' % t['str'])
+            if iid is None:
+                iid = find_inst('<%s as std::hash::Hash>::hash::<std::collections::hash_map::DefaultHasher>' % t['str'])
+            if iid is not None:
+                h = HasherObj()
+                I.call_fn(iid, [Ptr(Cell(v), 0), Ptr(Cell(h), 0)])
+                return tuple(h.acc)
+        return None
+
+    def map_find(I, m, key, kt=None):
+        kt = kt if kt is not None else m.kt
+        hk = None
+        for j, k in enumerate(m.kc.f):
+            if val_eq(I, kt, k, key):
+                if hk is None:
+                    hk = (hash_key(I, kt, key),)
+                if hk[0] is not None and hash_key(I, kt, k) != hk[0]:
+                    # equal under Eq but hashed differently (Hash/Eq inconsistent): the real table
+                    # finds it only on a tag collision; modelled as "not found" (stated assumption)
+                    continue
+                return j
+        return -1
+    M.map_find = map_find
+
+    # ------------------------------------------------------------------ hasher
+    @reg('std::hash::DefaultHasher::new', 'std::collections::hash_map::DefaultHasher::new', '<std::hash::DefaultHasher as std::default::Default>::default')
+    def hasher_new(I, ext, a):
+        return HasherObj()
+
+    @reg_re(r'^<(std::string::String|str) as std::hash::Hash>::hash$')
+    def hash_string(I, ext, a):
+        v = a[0].c.f[a[0].i] if type(a[0]) is Ptr else a[0]
+        s = v.s
+        a[1].c.f[a[1].i].acc.append(s)
+        return UNIT()
+
+    @reg_re(r'^(core|std)::hash::impls::<impl std::hash::Hash for \w+>::hash$')
+    def hash_prim(I, ext, a):
+        a[1].c.f[a[1].i].acc.append(a[0].c.f[a[0].i])
+        return UNIT()
+
+    @reg_re(r'^<std::hash::DefaultHasher as std::hash::Hasher>::write')
+    def hasher_write(I, ext, a):
+        a[0].c.f[a[0].i].acc.append(a[1] if not isinstance(a[1], Ptr) else 'bytes')
+        return UNIT()
+
+    @reg_re(r'^std::hash::Hasher::write_\w+$')
+    def hasher_write_x(I, ext, a):
+        a[0].c.f[a[0].i].acc.append(a[1])
+        return UNIT()
+
+    @reg('std::mem::discriminant')
+    def mem_discriminant(I, ext, a):
+        v = a[0].c.f[a[0].i]
+        return Agg([v.v if type(v) is Enum else 0])
+
+    @reg_re(r'^<std::mem::Discriminant<T> as std::hash::Hash>::hash$')
+    def hash_discr(I, ext, a):
+        a[1].c.f[a[1].i].acc.append(('d', a[0].c.f[a[0].i].f[0]))
+        return UNIT()
+
+    # ------------------------------------------------------------------ HashMap
+    @reg('std::collections::HashMap::<K, V>::new', 'std::collections::HashMap::<K, V>::with_capacity',
+         '<std::collections::HashMap<K, V, S> as std::default::Default>::default')
+    def map_new(I, ext, a):
+        ts = targs(ext)
+        return MapObj(ts[0], ts[1])
+
+    @reg('std::collections::HashSet::<T>::new', 'std::collections::HashSet::<T>::with_capacity',
+         '<std::collections::HashSet<T, S> as std::default::Default>::default')
+    def set_new(I, ext, a):
+        return MapObj(targs(ext)[0], None, True)
+
+    def lookup_key(I, ext, m, q):
+        """q: &Q where K: Borrow<Q>; handles String keys looked up by &str / &String"""
+        ts = targs(ext)
+        qt = ts[-1] if len(ts) >= 4 or (len(ts) >= 3 and not m.is_set) else None
+        # the Q type argument is the last generic; when Q is str the argument is a StrRef
+        if type(q) is StrRef:
+            for j, k in enumerate(m.kc.f):
+                if k.s == q.s:
+                    return j
+            return -1
+        key = q.c.f[q.i]
+        return map_find(I, m, key)
+
+    @reg('std::collections::HashMap::<K, V, S, A>::get', 'std::collections::HashMap::<K, V, S, A>::get_mut')
+    def map_get(I, ext, a):
+        m = deref_to_value(a[0])
+        j = lookup_key(I, ext, m, a[1])
+        return some(Ptr(m, j)) if j >= 0 else NONE()
+
+    @reg('<std::collections::HashMap<K, V, S, A> as std::ops::Index<&Q>>::index')
+    def map_index(I, ext, a):
+        m = deref_to_value(a[0])
+        j = lookup_key(I, ext, m, a[1])
+        if j < 0:
+            raise RustPanic('key not found in HashMap index', 'bounds')
+        return Ptr(m, j)
+
+    @reg('std::collections::HashMap::<K, V, S, A>::contains_key')
+    def map_contains_key(I, ext, a):
+        m = deref_to_value(a[0])
+        return lookup_key(I, ext, m, a[1]) >= 0
+
+    @reg('std::collections::HashMap::<K, V, S, A>::insert')
+    def map_insert(I, ext, a):
+        m = deref_to_value(a[0])
+        j = map_find(I, m, a[1])
+        if j >= 0:
+            old = m.f[j]
+            m.f[j] = a[2]
+            I.drop_value_at(Cell(a[1]), 0, m.kt)
+            return some(old)
+        m.kc.f.append(a[1])
+        m.f.append(a[2])
+        return NONE()
+
+    @reg('std::collections::HashMap::<K, V, S, A>::remove')
+    def map_remove(I, ext, a):
+        m = deref_to_value(a[0])
+        j = lookup_key(I, ext, m, a[1])
+        if j < 0:
+            return NONE()
+        k = m.kc.f.pop(j)
+        v = m.f.pop(j)
+        I.drop_value_at(Cell(k), 0, m.kt)
+        return some(v)
+
+    @reg('std::collections::HashMap::<K, V, S, A>::len', 'std::collections::HashSet::<T, S, A>::len')
+    def map_len(I, ext, a):
+        return len(deref_to_value(a[0]).kc.f)
+
+    @reg('std::collections::HashMap::<K, V, S, A>::is_empty', 'std::collections::HashSet::<T, S, A>::is_empty')
+    def map_is_empty(I, ext, a):
+        return len(deref_to_value(a[0]).kc.f) == 0
+
+    @reg('std::collections::HashMap::<K, V, S, A>::clear', 'std::collections::HashSet::<T, S, A>::clear')
+    def map_clear(I, ext, a):
+        m = deref_to_value(a[0])
+        drop_map_contents(I, m)
+        return UNIT()
+
+    def drop_map_contents(I, m):
+        for j in range(len(m.kc.f)):
+            I.drop_value_at(m.kc, j, m.kt)
+            if not m.is_set:
+                I.drop_value_at(m, j, m.vt)
+        m.kc.f = []
+        m.f = []
+
+    def drop_map(I, ext, a):
+        m = deref_to_value(a[0])
+        if type(m) is not MapObj:
+            raise Unsupported('drop of map holding %r' % (m,))
+        drop_map_contents(I, m)
+        return UNIT()
+    M.drops['std::collections::HashMap'] = drop_map
+    M.drops['std::collections::HashSet'] = drop_map
+
+    def iteration_order(I, n):
+        """a permutation of range(n) chosen by the run (std's order depends on a per-process random seed)"""
+        if n <= 1:
+            return list(range(n))
+        rest = list(range(n))
+        out = []
+        while len(rest) > 1:
+            c = I.ctx.nondet_choice('hash-order', len(rest))
+            out.append(rest.pop(c))
+        out.append(rest[0])
+        return out
+    M.iteration_order = iteration_order
+
+    @reg("<&'a std::collections::HashMap<K, V, S, A> as std::iter::IntoIterator>::into_iter", 'std::collections::HashMap::<K, V, S, A>::iter',
+         'std::collections::HashMap::<K, V, S, A>::iter_mut', "<&'a mut std::collections::HashMap<K, V, S, A> as std::iter::IntoIterator>::into_iter")
+    def map_iter(I, ext, a):
+        m = deref_to_value(a[0])
+        return IterObj(m, 0, None, 'map', iteration_order(I, len(m.kc.f)))
+
+    @reg("<std::collections::hash_map::Iter<'a, K, V> as std::iter::Iterator>::next", "<std::collections::hash_map::IterMut<'a, K, V> as std::iter::Iterator>::next")
+    def map_iter_next(I, ext, a):
+        it = deref_to_value(a[0])
+        if it.pos >= len(it.extra):
+            return NONE()
+        j = it.extra[it.pos]
+        it.pos += 1
+        return some(Agg([Ptr(it.c.kc, j), Ptr(it.c, j)]))
+
+    @reg('std::collections::HashMap::<K, V, S, A>::values', 'std::collections::HashMap::<K, V, S, A>::values_mut')
+    def map_values(I, ext, a):
+        m = deref_to_value(a[0])
+        return IterObj(m, 0, None, 'vals', iteration_order(I, len(m.kc.f)))
+
+    @reg("<std::collections::hash_map::Values<'a, K, V> as std::iter::Iterator>::next", "<std::collections::hash_map::ValuesMut<'a, K, V> as std::iter::Iterator>::next")
+    def map_values_next(I, ext, a):
+        it = deref_to_value(a[0])
+        if it.pos >= len(it.extra):
+            return NONE()
+        j = it.extra[it.pos]
+        it.pos += 1
+        return some(Ptr(it.c, j))
+
+    @reg('std::collections::HashMap::<K, V, S, A>::keys')
+    def map_keys(I, ext, a):
+        m = deref_to_value(a[0])
+        return IterObj(m, 0, None, 'keys', iteration_order(I, len(m.kc.f)))
+
+    @reg("<std::collections::hash_map::Keys<'a, K, V> as std::iter::Iterator>::next", "<std::collections::hash_set::Iter<'a, K> as std::iter::Iterator>::next")
+    def map_keys_next(I, ext, a):
+        it = deref_to_value(a[0])
+        if it.pos >= len(it.extra):
+            return NONE()
+        j = it.extra[it.pos]
+        it.pos += 1
+        return some(Ptr(it.c.kc, j))
+
+    @reg("<&'a std::collections::HashSet<T, S, A> as std::iter::IntoIterator>::into_iter", 'std::collections::HashSet::<T, S, A>::iter')
+    def set_iter(I, ext, a):
+        m = deref_to_value(a[0])
+        return IterObj(m, 0, None, 'keys', iteration_order(I, len(m.kc.f)))
+
+    @reg('<std::collections::HashSet<T, S, A> as std::iter::IntoIterator>::into_iter')
+    def set_into_iter(I, ext, a):
+        m = a[0]
+        order = iteration_order(I, len(m.kc.f))
+        items = [m.kc.f[j] for j in order]
+        return IterObj(VecObj(m.kt, items), 0, None, 'val', m.kt)
+
+    @reg('<std::collections::hash_set::IntoIter<K> as std::iter::Iterator>::next', '<std::collections::hash_set::IntoIter<K, A> as std::iter::Iterator>::next')
+    def set_into_iter_next(I, ext, a):
+        it = deref_to_value(a[0])
+        if it.pos >= len(it.c.f):
+            return NONE()
+        v = it.c.f[it.pos]
+        it.c.f[it.pos] = UNINIT
+        it.pos += 1
+        return some(v)
+    M.drops['std::collections::hash_set::IntoIter'] = M.drops['std::vec::IntoIter']
+
+    @reg('<std::collections::HashMap<K, V, S, A> as std::iter::IntoIterator>::into_iter')
+    def map_into_iter(I, ext, a):
+        m = a[0]
+        order = iteration_order(I, len(m.kc.f))
+        items = [Agg([m.kc.f[j], m.f[j]]) for j in order]
+        return IterObj(VecObj(None, items), 0, None, 'val', None)
+
+    @reg('<std::collections::hash_map::IntoIter<K, V, A> as std::iter::Iterator>::next', '<std::collections::hash_map::IntoIter<K, V> as std::iter::Iterator>::next')
+    def map_into_iter_next(I, ext, a):
+        return set_into_iter_next(I, ext, a)
+
+    def drop_map_intoiter(I, ext, a):
+        it = deref_to_value(a[0])
+        t = P.tys[targs(ext)[0]]
+        kt, vt = t['targs'][0], t['targs'][1]
+        for j in range(it.pos, len(it.c.f)):
+            pair = it.c.f[j]
+            I.drop_value_at(pair, 0, kt)
+            I.drop_value_at(pair, 1, vt)
+        it.c.f = []
+        it.pos = 0
+        return UNIT()
+    M.drops['std::collections::hash_map::IntoIter'] = drop_map_intoiter
+
+    @reg('std::collections::HashSet::<T, S, A>::insert')
+    def set_insert(I, ext, a):
+        m = deref_to_value(a[0])
+        j = map_find(I, m, a[1])
+        if j >= 0:
+            I.drop_value_at(Cell(a[1]), 0, m.kt)
+            return False
+        m.kc.f.append(a[1])
+        m.f.append(Agg([]))
+        return True
+
+    @reg('std::collections::HashSet::<T, S, A>::contains')
+    def set_contains(I, ext, a):
+        m = deref_to_value(a[0])
+        return lookup_key(I, ext, m, a[1]) >= 0
+
+    @reg('std::collections::HashSet::<T, S, A>::remove')
+    def set_remove(I, ext, a):
+        m = deref_to_value(a[0])
+        j = lookup_key(I, ext, m, a[1])
+        if j < 0:
+            return False
+        k = m.kc.f.pop(j)
+        m.f.pop(j)
+        I.drop_value_at(Cell(k), 0, m.kt)
+        return True
+
+    @reg('<std::collections::HashSet<T, S, A> as std::clone::Clone>::clone')
+    def set_clone(I, ext, a):
+        m = deref_to_value(a[0])
+        c = MapObj(m.kt, None, True)
+        clone = M.clone_fn(I, m.kt)
+        c.kc.f = [clone(Ptr(m.kc, j)) for j in range(len(m.kc.f))]
+        c.f = [Agg([]) for _ in c.kc.f]
+        return c
+
+    @reg('<std::collections::HashMap<K, V, S, A> as std::clone::Clone>::clone')
+    def map_clone(I, ext, a):
+        m = deref_to_value(a[0])
+        c = MapObj(m.kt, m.vt)
+        ck, cv = M.clone_fn(I, m.kt), M.clone_fn(I, m.vt)
+        c.kc.f = [ck(Ptr(m.kc, j)) for j in range(len(m.kc.f))]
+        c.f = [cv(Ptr(m, j)) for j in range(len(m.f))]
+        return c
+
+    @reg('<std::collections::HashSet<T, S, A> as std::cmp::PartialEq>::eq')
+    def set_eq(I, ext, a):
+        x, y = deref_to_value(a[0]), deref_to_value(a[1])
+        if len(x.kc.f) != len(y.kc.f):
+            return False
+        for k in x.kc.f:
+            if map_find(I, y, k) < 0:
+                return False
+        return True
+
+    @reg('<std::collections::HashMap<K, V, S, A> as std::cmp::PartialEq>::eq')
+    def map_eq(I, ext, a):
+        x, y = deref_to_value(a[0]), deref_to_value(a[1])
+        if len(x.kc.f) != len(y.kc.f):
+            return False
+        for j, k in enumerate(x.kc.f):
+            jj = map_find(I, y, k)
+            if jj < 0 or not val_eq(I, x.vt, x.f[j], y.f[jj]):
+                return False
+        return True
+
+    @reg('<std::collections::HashSet<T, S> as std::iter::FromIterator<T>>::from_iter')
+    def set_from_iter(I, ext, a):
+        ts = targs(ext)
+        m = MapObj(ts[0], None, True)
+        it = a[0]
+        items = drain_iter(I, it, ts[-1])
+        for x in items:
+            if map_find(I, m, x) >= 0:
+                I.drop_value_at(Cell(x), 0, m.kt)
+            else:
+                m.kc.f.append(x)
+                m.f.append(Agg([]))
+        return m
+
+    def drain_iter(I, it, it_ty):
+        if type(it) is IterObj and it.mode == 'val':
+            items = list(it.c.f[it.pos:])
+            it.c.f = []
+            return items
+        nxt = M.find_method(I, it_ty, 'std::iter::Iterator>::next')
+        cell = Cell(it)
+        out = []
+        while True:
+            r = I.call_fn(nxt, [Ptr(cell, 0)])
+            if r.v == 0:
+                break
+            out.append(r.f[0])
+        I.drop_value_at(cell, 0, it_ty)
+        return out
+    M.drain_iter = drain_iter
+
+    # HashMap entry API (or_default / or_insert / or_insert_with)
+    @reg('std::collections::HashMap::<K, V, S, A>::entry')
+    def map_entry(I, ext, a):
+        m = deref_to_value(a[0])
+        j = map_find(I, m, a[1])
+        return OpaqueObj('entry', (m, j, a[1]))
+
+    def entry_resolve(I, e, mk):
+        m, j, key = e.data
+        if j < 0:
+            m.kc.f.append(key)
+            m.f.append(mk())
+            j = len(m.f) - 1
+        else:
+            I.drop_value_at(Cell(key), 0, m.kt)
+        return Ptr(m, j)
+
+    @reg("std::collections::hash_map::Entry::<'a, K, V>::or_default")
+    def entry_or_default(I, ext, a):
+        e = a[0]
+        vt = targs(ext)[1]
+        return entry_resolve(I, e, lambda: default_value(I, vt))
+
+    @reg("std::collections::hash_map::Entry::<'a, K, V>::or_insert")
+    def entry_or_insert(I, ext, a):
+        return entry_resolve(I, a[0], lambda: a[1])
+
+    def default_value(I, tid):
+        t = P.tys[tid]
+        n = t.get('name', '')
+        if n == 'std::vec::Vec':
+            return VecObj(t['targs'][0])
+        if n == 'std::collections::HashSet':
+            return MapObj(t['targs'][0], None, True)
+        if n == 'std::collections::HashMap':
+            return MapObj(t['targs'][0], t['targs'][1])
+        if n == 'std::string::String':
+            return StringObj('')
+        k = t['kind']
+        if k == 'int':
+            return 0
+        if k == 'bool':
+            return False
+        if k == 'float':
+            return 0.0
+        iid = find_inst('<%s as std::default::Default>::default' % t['str'])
+        if iid is None:
+            raise Unsupported('no Default for %s' % t['str'])
+        return I.call_fn(iid, [])
+    M.default_value = default_value
+
+    # ------------------------------------------------------------------ String / str
+    @reg('<std::string::String as std::convert::From<&str>>::from', '<str as std::string::ToString>::to_string', 'std::str::<impl str>::to_owned',
+         '<str as std::borrow::ToOwned>::to_owned', 'core::str::<impl str>::to_string', '<std::string::String as std::convert::From<&std::string::String>>::from')
+    def string_from_str(I, ext, a):
+        v = a[0]
+        if type(v) is Ptr:
+            v = v.c.f[v.i]
+        return StringObj(v.s)
+
+    @reg('std::string::String::new', '<std::string::String as std::default::Default>::default')
+    def string_new(I, ext, a):
+        return StringObj('')
+
+    @reg('<std::string::String as std::clone::Clone>::clone')
+    def string_clone(I, ext, a):
+        return StringObj(deref_to_value(a[0]).s)
+
+    @reg('<std::string::String as std::ops::Deref>::deref', 'std::string::String::as_str', '<std::string::String as std::convert::AsRef<str>>::as_ref',
+         '<std::string::String as std::borrow::Borrow<str>>::borrow')
+    def string_deref(I, ext, a):
+        return StrRef(deref_to_value(a[0]).s)
+
+    @reg('<std::string::String as std::cmp::PartialEq>::eq')
+    def string_eq(I, ext, a):
+        return deref_to_value(a[0]).s == deref_to_value(a[1]).s
+
+    @reg_re(r"^<std::string::String as std::cmp::PartialEq<(&'a )?str>>::eq$|^<(&'a )?str as std::cmp::PartialEq<std::string::String>>::eq$")
+    def string_eq_str(I, ext, a):
+        def s(x):
+            while type(x) is Ptr:
+                x = x.c.f[x.i]
+            return x.s
+        return s(a[0]) == s(a[1])
+
+    @reg('std::string::String::is_empty')
+    def string_is_empty(I, ext, a):
+        return deref_to_value(a[0]).s == ''
+
+    @reg('std::string::String::len')
+    def string_len(I, ext, a):
+        return len(deref_to_value(a[0]).s.encode())
+
+    @reg('core::str::<impl str>::is_empty', 'std::str::<impl str>::is_empty')
+    def str_is_empty(I, ext, a):
+        return a[0].s == ''
+
+    @reg('core::str::<impl str>::len', 'std::str::<impl str>::len')
+    def str_len(I, ext, a):
+        return len(a[0].s.encode())
+
+    @reg('core::str::<impl str>::trim', 'std::str::<impl str>::trim')
+    def str_trim(I, ext, a):
+        return StrRef(a[0].s.strip())
+
+    @reg('std::string::String::push_str')
+    def string_push_str(I, ext, a):
+        s = deref_to_value(a[0])
+        s.s += a[1].s
+        return UNIT()
+
+    @reg('<T as std::string::ToString>::to_string')
+    def to_string(I, ext, a):
+        t = P.tys[targs(ext)[0]]
+        v = deref_to_value(a[0])
+        if t['kind'] == 'str' or type(v) is StrRef:
+            return StringObj(v.s if type(v) is StrRef else a[0].s)
+        if type(v) is StringObj:
+            return StringObj(v.s)
+        if type(v) is Enum and t.get('name') == 'std::borrow::Cow':
+            return StringObj(v.f[0].s)
+        if t['kind'] == 'int' and not is_sym(v):
+            return StringObj(str(v))
+        return StringObj('<%s>' % t['str'][:40])
+
+    # ------------------------------------------------------------------ fmt (opaque)
+    @reg_re(r"^(core|std)::fmt::rt::Argument::<'_>::new_\w+$")
+    def fmt_arg(I, ext, a):
+        return OpaqueObj('fmtarg', a[0])
+
+    @reg_re(r"^std::fmt::Arguments::<'a>::(new|from_str|new_const|new_v1|new_v1_formatted)$")
+    def fmt_arguments(I, ext, a):
+        return OpaqueObj('fmtargs', a)
+
+    @reg('std::fmt::format', 'alloc::fmt::format')
+    def fmt_format(I, ext, a):
+        return StringObj('<formatted>')
+
+    @reg('std::io::Write::write_fmt', 'std::io::_print', 'std::io::_eprint')
+    def write_fmt(I, ext, a):
+        return ok(UNIT()) if ext['dname'].endswith('write_fmt') else UNIT()
+
+    # ------------------------------------------------------------------ log
+    @reg('log::max_level')
+    def log_max_level(I, ext, a):
+        return Enum(0, [])  # LevelFilter::Off
+
+    @reg('<log::Level as std::cmp::PartialOrd<log::LevelFilter>>::partial_cmp')
+    def log_level_cmp(I, ext, a):
+        lv = deref_to_value(a[0]).v + 1   # Level::Error = 1 ...
+        fl = deref_to_value(a[1]).v       # LevelFilter::Off = 0
+        return some(Enum((lv > fl) - (lv < fl) + 1, []))
+
+    @reg('log::__private_api::loc')
+    def log_loc(I, ext, a):
+        return OpaqueObj('loc')
+
+    @reg_re(r'^log::__private_api::log')
+    def log_log(I, ext, a):
+        return UNIT()
+
+    # ------------------------------------------------------------------ lazy_static / Once
+    @reg('lazy_static::lazy::Lazy::<T>::get')
+    def lazy_get(I, ext, a):
+        lz = a[0]
+        st = I.model_state.setdefault('lazy', {})
+        key = id(lz.c)
+        ent = st.get(key)
+        if ent is None:
+            f = a[1]
+            ts = targs(ext)
+            ft = P.tys[ts[1]]
+            if ft['kind'] == 'fndef':
+                v = I.call_fn(ft['inst'], [])
+            elif ft['kind'] == 'closure':
+                v = I.call_fn(ft['call_once'], [f, Agg([])], RUST_CALL)
+            else:
+                raise Unsupported('lazy initialiser of type %s' % ft['str'])
+            ent = (Cell(v, 'lazy'), lz.c)
+            st[key] = ent
+        return Ptr(ent[0], 0)
+
+    @reg('std::sync::Once::new')
+    def once_new(I, ext, a):
+        return OnceObj()
+
+    @reg('std::sync::Once::call_once')
+    def once_call(I, ext, a):
+        o = deref_to_value(a[0])
+        if not o.done:
+            o.done = True
+            ft = P.tys[targs(ext)[0]]
+            if ft['kind'] == 'closure':
+                I.call_fn(ft['call_once'], [a[1], Agg([])], RUST_CALL)
+            else:
+                I.call_fn(ft['inst'], [])
+        return UNIT()
+
+    @reg('std::sync::Once::is_completed')
+    def once_done(I, ext, a):
+        return deref_to_value(a[0]).done
+
+    def dec_once(I, t, alloc, off):
+        return OnceObj()
+    M.decoders['std::sync::Once'] = dec_once
+
+    def dec_lazy(I, t, alloc, off):
+        return OpaqueObj('lazy-static-cell')
+    M.decoders['lazy_static::lazy::Lazy'] = dec_lazy
+
+    def dec_mutex(I, t, alloc, off):
+        lay = t['layout']
+        offs = [o['num_bits'] // 8 for o in lay['fields']['Arbitrary']['offsets']]
+        fs = t['variants'][0]['fields']
+        data = None
+        for f, o in zip(fs, offs):
+            if f['name'] == 'data':
+                ut = P.tys[f['ty']]  # UnsafeCell<T>
+                data = I.decode(ut['targs'][0], alloc, off + o)
+        return LockObj(data, 'mutex' if t['name'].endswith('Mutex') else 'rwlock')
+    M.decoders['std::sync::Mutex'] = dec_mutex
+    M.decoders['std::sync::RwLock'] = dec_mutex
+
+    # ------------------------------------------------------------------ thread_local
+    @reg('std::thread::LocalKey::<T>::try_with', 'std::thread::LocalKey::<T>::with')
+    def localkey_with(I, ext, a):
+        key = deref_to_value(a[0])
+        # LocalKey { inner: fn(Option<&mut Option<T>>) -> *const T }
+        st = I.model_state.setdefault('tls', {})
+        inner = key.f[0]
+        k = (I.thread_id, inner.inst)
+        cell = st.get(k)
+        if cell is None:
+            p = I.call_fn(inner.inst, [NONE()], CLOSURE_PTR if inner.closure else None)
+            cell = p
+            st[k] = cell
+        ts = targs(ext)
+        ft = P.tys[ts[1]]
+        r = I.call_fn(ft['call_once'], [a[1], Agg([cell])], RUST_CALL)
+        if ext['dname'].endswith('try_with'):
+            return ok(r)
+        return r
+
+    @reg('std::thread::local_impl::LazyStorage::<T, D>::get_or_init', 'std::thread::local_impl::lazy::Storage::<T, D>::get_or_init')
+    def lazystorage_get(I, ext, a):
+        st = I.model_state.setdefault('tls_store', {})
+        k = (I.thread_id, id(a[0].c))
+        cell = st.get(k)
+        if cell is None:
+            # a[2] is the init fn item
+            ts = targs(ext)
+            f = a[2]
+            ft = P.tys[f.ty] if type(f) is FnItem else None
+            if ft is None:
+                raise Unsupported('thread_local init %r' % (f,))
+            v = I.call_fn(ft['inst'], [])
+            cell = Cell(v, 'tls')
+            st[k] = cell
+        return Ptr(cell, 0)
+
+    def tls_ref(I, item):
+        st = I.model_state.setdefault('tls_static', {})
+        k = (I.thread_id, item if not isinstance(item, dict) else json_key(item))
+        cell = st.get(k)
+        if cell is None:
+            cell = Cell(OpaqueObj('tls-static'), 'tls-static')
+            st[k] = cell
+        return Ptr(cell, 0)
+    M.thread_local_ref = tls_ref
+
+    def json_key(d):
+        import json
+        return json.dumps(d, sort_keys=True)
+
+    # ------------------------------------------------------------------ RefCell / Cell
+    @reg('std::cell::RefCell::<T>::new')
+    def refcell_new(I, ext, a):
+        return RefCellObj(a[0])
+
+    @reg('std::cell::RefCell::<T>::borrow')
+    def refcell_borrow(I, ext, a):
+        c = deref_to_value(a[0])
+        if c.borrow < 0:
+            raise RustPanic('already mutably borrowed', 'borrow')
+        c.borrow += 1
+        return BorrowRef(c, False)
+
+    @reg('std::cell::RefCell::<T>::borrow_mut')
+    def refcell_borrow_mut(I, ext, a):
+        c = deref_to_value(a[0])
+        if c.borrow != 0:
+            raise RustPanic('already borrowed', 'borrow')
+        c.borrow = -1
+        return BorrowRef(c, True)
+
+    @reg_re(r"^<std::cell::Ref(Mut)?<'_, T> as std::ops::Deref(Mut)?>::deref(_mut)?$")
+    def ref_deref(I, ext, a):
+        b = deref_to_value(a[0])
+        return Ptr(b.cell, 0)
+
+    def drop_borrow(I, ext, a):
+        b = deref_to_value(a[0])
+        if b.mut:
+            b.cell.borrow = 0
+        else:
+            b.cell.borrow -= 1
+        return UNIT()
+    M.drops['std::cell::Ref'] = drop_borrow
+    M.drops['std::cell::RefMut'] = drop_borrow
+
+    def drop_refcell(I, ext, a):
+        c = deref_to_value(a[0])
+        t = P.tys[targs(ext)[0]]
+        I.drop_value_at(c, 0, t['targs'][0])
+        return UNIT()
+    M.drops['std::cell::RefCell'] = drop_refcell
+
+    # ------------------------------------------------------------------ Box<dyn Fn>, Any
+    @reg('<std::boxed::Box<F, A> as std::ops::Fn<Args>>::call', '<std::boxed::Box<F, A> as std::ops::FnMut<Args>>::call_mut',
+         '<std::boxed::Box<F, A> as std::ops::FnOnce<Args>>::call_once')
+    def box_fn_call(I, ext, a):
+        b = a[0]
+        if type(b) is Ptr:
+            b = b.c.f[b.i]
+        p = I.box_ptr(b)
+        ts = targs(ext)
+        ft = P.tys[ts[1]]
+        if ft['kind'] == 'dyn':
+            ct = P.tys[p.meta.ty]
+        else:
+            ct = ft
+        if ct['kind'] == 'closure':
+            return I.call_fn(ct['call_once'], [p.c.f[p.i], a[1]], RUST_CALL)
+        if ct['kind'] == 'fndef':
+            return I.call_fn(ct['inst'], list(a[1].f))
+        if ct['kind'] == 'fnptr':
+            return I.call_fn(p.c.f[p.i].inst, list(a[1].f))
+        raise Unsupported('Box<%s> call' % ct['str'])
+
+    @reg_re(r"^<\(dyn std::any::Any( \+ std::marker::Send)?( \+ std::marker::Sync)?( \+ 'static)?\)>::(downcast_ref|downcast_mut|is)$")
+    def any_downcast(I, ext, a):
+        p = a[0]
+        want = targs(ext)[0]
+        which = ext['dname'].rsplit('::', 1)[1]
+        if not isinstance(p.meta, Dyn):
+            raise Unsupported('downcast on non-dyn pointer')
+        same = p.meta.ty == want
+        if which == 'is':
+            return same
+        return some(Ptr(p.c, p.i)) if same else NONE()
+
+    # ------------------------------------------------------------------ sort
+    @reg('core::slice::<impl [T]>::sort_unstable_by_key', 'std::slice::<impl [T]>::sort_unstable_by_key', 'std::slice::<impl [T]>::sort_by_key')
+    def sort_by_key(I, ext, a):
+        s = a[0]
+        ts = targs(ext)
+        ft = P.tys[ts[-1]]
+        n = s.meta
+        keys = []
+        for j in range(n):
+            k = I.call_fn(ft['call_once'], [a[1], Agg([Ptr(s.c, s.i + j)])], RUST_CALL)
+            if is_sym(k):
+                k = I.ctx.concretize(k)
+            keys.append(k)
+        items = [s.c.f[s.i + j] for j in range(n)]
+        stable = ext['dname'].endswith('sort_by_key')
+        order = sorted(range(n), key=lambda j: keys[j])
+        if not stable:
+            # unstable sort: any order of equal keys is legal -> chosen by the run
+            out = []
+            j = 0
+            while j < n:
+                g = [x for x in order if keys[x] == keys[order[j]]]
+                perm = M.iteration_order(I, len(g)) if len(g) > 1 else [0]
+                out.extend(g[q] for q in perm)
+                j += len(g)
+            order = out
+        for j, src in enumerate(order):
+            s.c.f[s.i + j] = items[src]
+        return UNIT()
+
+    # ------------------------------------------------------------------ misc
+    @reg('uuid::v4::<impl uuid::Uuid>::new_v4')
+    def uuid_new(I, ext, a):
+        n = I.model_state.get('uuid', 0) + 1
+        I.model_state['uuid'] = n
+        return OpaqueObj('uuid', n)
+
+    @reg('std::thread::sleep')
+    def thread_sleep(I, ext, a):
+        raise Unsupported('real thread::sleep reached (virtual clock not armed?)')
+
+    @reg('std::time::Duration::from_nanos', 'std::time::Duration::from_millis')
+    def duration_from(I, ext, a):
+        return OpaqueObj('duration', a[0])
+
+    @reg_re(r'^time::offset_date_time::OffsetDateTime::(now_utc|from_unix_timestamp_nanos|from_unix_timestamp)$')
+    def odt_new(I, ext, a):
+        o = OpaqueObj('datetime', a[0] if a else None)
+        return o if ext['dname'].endswith('now_utc') else ok(o)
+
+    @reg('time::offset_date_time::OffsetDateTime::unix_timestamp_nanos')
+    def odt_nanos(I, ext, a):
+        raise Unsupported('real clock read (virtual clock not armed)')
+
+    @reg('time::offset_date_time::OffsetDateTime::format')
+    def odt_format(I, ext, a):
+        return ok(StringObj('<time>'))
+
+    @reg('<time::signed_duration::SignedDuration as std::ops::Div>::div', '<time::duration::Duration as std::ops::Div>::div')
+    def dur_div(I, ext, a):
+        # only used for MILLISECOND / NANOSECOND
+        return 1000000.0
+
+    @reg('intrinsic:ceilf64')
+    def ceilf64(I, ext, a):
+        return float(math.ceil(a[0])) if math.isfinite(a[0]) else a[0]
+
+    @reg('intrinsic:floorf64')
+    def floorf64(I, ext, a):
+        return float(math.floor(a[0])) if math.isfinite(a[0]) else a[0]
+
+    @reg('intrinsic:roundf64')
+    def roundf64(I, ext, a):
+        x = a[0]
+        if not math.isfinite(x):
+            return x
+        return float(math.floor(abs(x) + 0.5)) * (1 if x >= 0 else -1)
+
+    @reg('std::ptr::null_mut', 'std::ptr::null')
+    def ptr_null(I, ext, a):
+        return NullPtr(0)
+
+    @reg_re(r'^std::ptr::(mut_ptr|const_ptr)::<impl \*(mut|const) T>::is_null$')
+    def ptr_is_null(I, ext, a):
+        return type(a[0]) is NullPtr and a[0].addr == 0
+
+    @reg('dirs::home_dir')
+    def home_dir(I, ext, a):
+        return some(StringObj('/root'))
+
+    @reg('std::path::Path::join')
+    def path_join(I, ext, a):
+        base = a[0]
+        bs = base.s if hasattr(base, 's') else deref_to_value(base).s
+        o = a[1]
+        os_ = o.s if hasattr(o, 's') else deref_to_value(o).s
+        return StringObj(bs.rstrip('/') + '/' + os_)
+
+    @reg('<std::path::PathBuf as std::ops::Deref>::deref', 'std::path::PathBuf::as_path')
+    def pathbuf_deref(I, ext, a):
+        return StrRef(deref_to_value(a[0]).s)
+
+    @reg('std::path::Path::to_string_lossy')
+    def path_lossy(I, ext, a):
+        return Enum(1, [StringObj(a[0].s)])
+
+    @reg('std::env::var_os', 'std::env::var')
+    def env_var(I, ext, a):
+        return NONE() if ext['dname'].endswith('var_os') else err(Enum(0, []))
+
+    M.drops['std::path::PathBuf'] = M.drops['std::string::String']
+    M.drops['std::borrow::Cow'] = M.drops['std::string::String']
+    M.drops['std::ffi::OsString'] = M.drops['std::string::String']
+    M.drops['std::sync::Once'] = M.drops['std::string::String']
+    M.drops['std::sync::atomic::Atomic'] = M.drops['std::string::String']
+    M.drops['uuid::Uuid'] = M.drops['std::string::String']
+
+
+_old_register_all = register_all
+
+
+def register_all(M):  # noqa: F811
+    _old_register_all(M)
+    register_batch2(M)
